@@ -20,5 +20,10 @@ theorem body_Program_Println : Tea.Gen.fact_body_Program_Println = Tea.Doc.fact_
 theorem body_Program_Printf : Tea.Gen.fact_body_Program_Printf = Tea.Doc.fact_body_Program_Printf := rfl
 theorem order_Program_shutdown : Tea.Gen.fact_order_Program_shutdown = Tea.Doc.fact_order_Program_shutdown := rfl
 theorem order_Program_Run : Tea.Gen.fact_order_Program_Run = Tea.Doc.fact_order_Program_Run := rfl
+theorem bodies_nilRenderer : Tea.Gen.fact_bodies_nilRenderer = Tea.Doc.fact_bodies_nilRenderer := rfl
+theorem body_NewProgram : Tea.Gen.fact_body_NewProgram = Tea.Doc.fact_body_NewProgram := rfl
+theorem body_Println : Tea.Gen.fact_body_Println = Tea.Doc.fact_body_Println := rfl
+theorem body_Printf : Tea.Gen.fact_body_Printf = Tea.Doc.fact_body_Printf := rfl
+theorem body_Quit : Tea.Gen.fact_body_Quit = Tea.Doc.fact_body_Quit := rfl
 
 end Tea.Props.Bridge.C13
